@@ -332,6 +332,10 @@ Definition legacy_aggregate_dendrogram := aggregate_dendrogram_with false legacy
 Definition true_count (n : nat) (D : dendrogram) (l : nat) : nat :=
   if Nat.ltb l n then 1 else r_size (nth (l - n) D drow0).
 
+(** The ids of the input dendrogram that become the leaves 0..k-1 of the aggregated one (k >= 2). *)
+Definition kept_ids (n : nat) (D : dendrogram) (k : nat) : list nat :=
+  let newD := skipn (n - k) D in firstn k (sorted_ids (map r_left newD ++ map r_right newD)).
+
 (** * Specification vocabulary for the cuts *)
 From Coq Require Import Permutation.
 
